@@ -1,6 +1,6 @@
 CONSTANTS N = 3  W = 1
           T = 3  MaxOut = 2  Base = 1  Fee = 1  KMax = 3
-          SendAmts = {2, 4}  OwnModes = {1, 2, 3}  MaxIns = 2  MaxBlockTx = 2
+          SendAmts = {2}  OwnModes = {1}  MaxIns = 2  MaxBlockTx = 2
           MaxDeliver = 99  MaxMem = 99  MaxSend = 99  MaxRewind = 99
           RewindInclusive = TRUE  KeepOnConfirm = TRUE  KeepOnMempool = TRUE
           UnconfInZero = TRUE  ZeroSentinel = FALSE
